@@ -99,6 +99,7 @@ func init() {
 	reg("isleaf", Leaf, 1, ix(0), nil, false, 1)
 	reg("lowleaf", Leaf, 1, ix(0), nil, false, 1)
 	reg("asleaf", Leaf, 1, ix(0), nil, false, 1)
+	reg("stacksafeleaf", Leaf, 1, ix(0), nil, false, 0) // weight 0: only placed explicitly (C15); an unregistered type loses its stack in transfer
 	// library wrappers
 	reg("wrap", Wrap, 1, nil, ix(0), true, 4)
 	reg("wrapempty", Wrap, 0, nil, nil, true, 1)
@@ -167,6 +168,8 @@ func init() {
 	reg("multinofmt", Multi, 1, ix(0), nil, false, 1)
 	reg("multireg", Multi, 1, ix(0), nil, false, 1)
 }
+
+var errPoison = goErr.New("POISON: the caller's slice was reused after Join")
 
 // UserSentinelA is a library-built sentinel; B a stdlib one.
 var (
@@ -298,6 +301,8 @@ func Build1(n *Node, m Built) error {
 		return &LOW{Msg: S[0]}
 	case "asleaf":
 		return &AsLeaf{S[0]}
+	case "stacksafeleaf":
+		return &StackSafeLeaf{Msg: S[0], St: pkgErr.New("").(interface{ StackTrace() pkgErr.StackTrace }).StackTrace()}
 	// ---- library wrappers
 	case "wrap":
 		return errors.Wrap(kids[0], S[0])
@@ -425,7 +430,12 @@ func Build1(n *Node, m Built) error {
 		return errors.Newf(esc(S[0])+" %w "+esc(S[1])+" %v", kids[0], hid[0])
 	// ---- multi-cause
 	case "join":
-		return errors.Join(kids...)
+		j := errors.Join(kids...)
+		// the caller owns (and may reuse) the slice it spread into Join
+		for i := range kids {
+			kids[i] = errPoison
+		}
+		return j
 	case "gojoin":
 		return goErr.Join(kids...)
 	case "goerrorfmulti":
